@@ -102,11 +102,11 @@ def join_val(a, b):
             return a
         if a.tag == 'list':
             if a.a is None and b.a is None:
-                return V('list', None, a.b and b.b)
+                return V('list', None, a.b if a.b == b.b else False)
             e = a.a if b.a is None else (b.a if a.a is None else join_val(a.a, b.a))
             if e is None:
                 return V('list', None, False) if (a.a is None or b.a is None) else None
-            return V('list', e, a.b and b.b)
+            return V('list', e, a.b if a.b == b.b else False)
         if a.tag == 'dictkeys':
             return V('dictkeys', join_val(a.a, b.a))
         if a.tag == 'tuple' and len(a.a) == len(b.a):
@@ -338,7 +338,7 @@ class Interp:
                 if b.tag == 'tuple' and isinstance(e.slice, ast.Constant) and isinstance(e.slice.value, int) and e.slice.value < len(b.a):
                     return b.a[e.slice.value]
                 if b.tag == 'list':
-                    if b.b and not isinstance(e.slice, ast.Slice):
+                    if b.b is True and not isinstance(e.slice, ast.Slice):
                         # indexing a literally empty list raises IndexError: this path does not continue
                         self.ev_event('index_empty', e, expr=U(e))
                         self.dead = True
@@ -356,7 +356,7 @@ class Interp:
             j = vs[0]
             for v in vs[1:]:
                 j = join_val(j, v)
-            return V('list', j, False)
+            return V('list', j, 'one' if len(vs) == 1 else False)
         if isinstance(e, ast.Dict):
             ks = [self.ev(k, st) for k in e.keys]
             for v in e.values:
@@ -367,7 +367,7 @@ class Interp:
                 s = frozenset()
                 for k in ks:
                     s |= k.names
-                return V('dictkeys', Name(s))
+                return V('dictkeys', Name(s), 'one' if len(ks) == 1 else None)
             if all(isinstance(k, V) and k.tag == 'const' and isinstance(k.a, str) for k in ks):
                 return None
             return None
@@ -446,6 +446,8 @@ class Interp:
                     # after a dereferencing query returned normally the name is a known rule key
                     if f.attr in ai.pol.deref and isinstance(nv, Name) and nv.unknown and isinstance(e.args[0], ast.Name):
                         st.env[e.args[0].id] = Name(nv.names - {UNK}, nv.client)
+                    if isinstance(e.args[0], ast.Name) and isinstance(nv, Name) and len(e.args) == 1:
+                        return V('polres', f.attr, e.args[0].id)
                 return None
             if isinstance(recv, V) and recv.tag == 'session':
                 if f.attr == 'commit':
@@ -529,7 +531,7 @@ class Interp:
         if fname in ('six.iteritems',) and argv:
             v = argv[0]
             if isinstance(v, V) and v.tag == 'dictkeys':
-                return V('list', V('tuple', (v.a, V('attrval'))), False)
+                return V('list', V('tuple', (v.a, V('attrval'))), 'one' if v.b == 'one' else False)
             return None
         if fname in ('list', 'sorted', 'reversed', 'tuple') and e.args:
             v = argv[0]
@@ -673,8 +675,8 @@ class Interp:
             st.corr.pop(target.id, None)
             for k in [k for k, o in st.corr.items() if o == target.id]:
                 st.corr.pop(k)
-            # projections of an overwritten variable die
-            for k in [k for k, x in st.env.items() if isinstance(x, V) and x.tag == 'proj' and x.b == target.id and k != target.id]:
+            # projections of / policy results about an overwritten variable die
+            for k in [k for k, x in st.env.items() if isinstance(x, V) and x.tag in ('proj', 'polres') and x.b == target.id and k != target.id]:
                 st.env.pop(k)
         elif isinstance(target, (ast.Tuple, ast.List)):
             for i, t in enumerate(target.elts):
@@ -711,12 +713,22 @@ class Interp:
         if isinstance(test, ast.Name):
             v = env.get(test.id)
             if isinstance(v, V) and v.tag == 'list':
-                if v.b and pol:
+                if v.b is True and pol:
                     return None        # literally empty list is falsy
             if isinstance(v, V) and v.tag == 'const':
                 truth = bool(v.a)
                 if truth != pol:
                     return None
+            if isinstance(v, V) and v.tag == 'polres' and isinstance(env.get(v.b), Name):
+                nv = env[v.b]
+                R = ai.pol.rules
+                fld = {'is_attribute_multivalued': 'multivalued', 'is_attribute_modifiable_by_client': 'modifiable_by_client',
+                       'is_attribute_deletable_by_client': 'deletable_by_client'}.get(v.a)
+                if fld:
+                    names = frozenset(x for x in nv.names if x == UNK or R[x][fld] == pol)
+                    if not names:
+                        return None
+                    env[v.b] = Name(names, nv.client)
             return st
         if isinstance(test, ast.Call):
             f = test.func
@@ -987,13 +999,22 @@ class Interp:
                                 continue
                         elif n.kind == 'loop' and isinstance(n.stmt, ast.For):
                             it = getattr(out, '_iter', None)
+                            marker = '__single__%d' % n.stmt.lineno
+                            single = isinstance(it, V) and it.tag in ('list', 'dictkeys') and it.b == 'one'
                             if lab == 'T':
-                                if isinstance(it, V) and it.tag == 'list' and it.b:
+                                if isinstance(it, V) and it.tag == 'list' and it.b is True:
                                     continue      # iterating a literally empty list
+                                if marker in out.env:
+                                    continue      # the single element was already consumed
                                 e2 = out.copy()
                                 self.bind(n.stmt.target, self.elem_of(it), e2)
+                                if single:
+                                    e2.env[marker] = V('const', 'done')
                             else:
+                                if single and marker not in out.env:
+                                    continue      # exactly one iteration happens first
                                 e2 = out.copy()
+                                e2.env.pop(marker, None)
                     if s_ is g.exit:
                         IN[s_.id][e2.key()] = e2
                         if lab != 'return':
@@ -1001,6 +1022,12 @@ class Interp:
                             if self.depth == 0:
                                 self.node = n
                                 self.ev_event('return', n.stmt if n.stmt is not None else self.fn, state=e2.summary(), falls_off=True)
+                        continue
+                    if s_.kind == 'loop' and isinstance(s_.stmt, ast.For) and ('__single__%d' % s_.stmt.lineno) in e2.env:
+                        k2 = e2.key()
+                        if k2 not in IN[s_.id]:
+                            IN[s_.id][k2] = e2
+                            work.append(s_)
                         continue
                     if s_.kind == 'loop' and IN[s_.id]:
                         (ok, old), = list(IN[s_.id].items())[:1]
